@@ -188,6 +188,22 @@ def symmetrise_check(ctx, c, outs):
         s = m.symmetrise()
         su, mult, idx = m.symmetrise(unique=True, return_multiplicity=True, return_index=True)
         mu = m.multiplicity
+        # every combination of the two flags returns the same vectors / multiplicities / indices
+        su1 = m.symmetrise(unique=True)
+        su2, mult2 = m.symmetrise(unique=True, return_multiplicity=True)
+        su3, idx3 = m.symmetrise(unique=True, return_index=True)
+        for flags in ({"return_multiplicity": True}, {"return_index": True}):
+            try:
+                m.symmetrise(unique=False, **flags)
+                return f"{G.name}: symmetrise(unique=False, {flags}) is accepted (the flags require unique=True)"
+            except ValueError:
+                pass
+    for other in (su1, su2, su3):
+        if not np.array_equal(other.data, su.data):
+            return f"{G.name}: symmetrise(unique=True) returns different vectors for different return_* flags"
+    if not np.array_equal(mult2, mult) or not np.array_equal(idx3, idx):
+        return (f"{G.name}: multiplicities / indices depend on which return_* flags are set: {np.asarray(mult2).tolist()} vs "
+                f"{np.asarray(mult).tolist()}, {np.asarray(idx3).tolist()} vs {np.asarray(idx).tolist()}")
     for obj, name in ((s, "symmetrise()"), (su, "symmetrise(unique=True)")):
         if obj.phase is None or obj.phase.point_group.name != G.name or obj.coordinate_format != fmt:
             return f"{G.name}: {name} lost the phase or the coordinate format ({obj.coordinate_format} vs {fmt})"
